@@ -19,6 +19,8 @@ fn run_check(id: &str, tier: Tier) -> Result<infra::Report, String> {
         "C04" => sim::checks::c04(tier),
         "C06" => sim::checks::c06(tier),
         "C05" => sim::checks::c05(tier),
+        "C15" => sim::checks::c15(tier),
+        "C14" => sim::checks::c14(tier),
         // REGISTRY (run): "CNN" => cNN::run(tier),
         _ => Err(format!("no check registered for {}", id)),
     }
@@ -152,6 +154,8 @@ fn probe_scenarios() {
     let mut all = sim::scenarios::messaging_all(true);
     all.extend(sim::scenarios::bin_all());
     all.extend(sim::scenarios::select_mix_all(false));
+    all.extend(sim::scenarios::fail_all());
+    all.extend(sim::scenarios::res_all());
     let filter = std::env::args().nth(2);
     for sc in all {
         if let Some(f) = &filter { if !sc.id.contains(f.as_str()) { continue; } }
@@ -163,7 +167,7 @@ fn probe_scenarios() {
                     break;
                 }
                 Ok(unit) => {
-                    let cfg = sim::system::Config { workers: w, quantum: q, request_early: true, io: false, defer_effects: false };
+                    let cfg = sim::system::Config { workers: w, quantum: q, request_early: true, io: sc.io, defer_effects: false };
                     let mut mon = sim::monitors::StdMonitor { heap: true, conserve: true, ..Default::default() };
                     let r = sim::explore::run_once(&cfg, &unit.bytecode(), &[], &mut mon, true).unwrap();
                     let mut sys = r.sys.unwrap();
